@@ -24,7 +24,7 @@ from . import findlib as fl
 CHIRAL = {"chiral", "asym4", "asym5"}          # patterns whose mirror image is NOT an occurrence
 POSES = ["random", "identity", "axis90", "axis180", "anti"]
 FRACS = [0.0, 0.01, 0.5, 0.99, 0.999]
-CELLS = ["ortho", "tri+", "tri-", "rot", "upper", "sparse"]
+CELLS = ["ortho", "tri+", "tri-", "rot", "upper", "sparse", "ortho-1", "ortho-2", "ortho-3", "neg-mixed"]
 
 
 # ------------------------------------------------------------------ independent specification of "occurrence"
@@ -136,30 +136,41 @@ def pose_rotation(rng, pose, ppos):
 
 
 def negative_diagonal(cf):
-    """a DIAGONAL cell matrix with a negative entry (an orthorhombic cell turned by 180 degrees about an axis).
-    `cell_is_orthorhombic()` is true for it and the box test `x < D + cell[k][k]` of the orthorhombic branch then
-    selects nothing — the search silently reports no match at all.  This is the known finding
-    C02-negative-diagonal-orthorhombic-cell: such cells are generated ONLY by the dedicated stream (cell kinds
-    "ortho-1"/"ortho-2") whose failures carry the finding's tag, never by the general streams."""
+    """a DIAGONAL cell matrix with a negative entry (an orthorhombic cell turned by 180 degrees about an axis, or
+    given left-handed).  `cell_is_orthorhombic()` is true for it; before the fix 6179f2d the box test
+    `x < D + cell[k][k]` then selected nothing.  Since the fix such cells are part of the GENERAL streams (cell kinds
+    "ortho-1", "ortho-2", "ortho-3", "neg-mixed" and whatever the rotated kind produces)."""
     cf = np.asarray(cf, dtype=float)
     return bool((cf == np.diag(np.diag(cf))).all() and (np.diag(cf) <= 0).any())
+
+
+NEG_KINDS = ["ortho-1", "ortho-2", "ortho-3", "neg-mixed"]
 
 
 def _cell(rng, kind, d, atol, tight):
     """cell rows (floats); every perpendicular width exceeds d + 2 atol (by >= 1 A, or only by 3..30 % if tight)"""
     D = d + 2 * atol
     for _ in range(200):
-        if kind in ("ortho-1", "ortho-2"):
-            # KNOWN FINDING stream (C02-negative-diagonal-orthorhombic-cell): an orthorhombic cell given with one or
-            # two negative diagonal entries (two = the cell turned by 180 degrees about an axis)
+        if kind in ("ortho-1", "ortho-2", "ortho-3"):
+            # a diagonal cell with one, two or three NEGATIVE diagonal entries (two = the orthorhombic cell turned by 180
+            # degrees about an axis; one / three = the same lattice given left-handed)
             cell = fl.make_cell(rng, "ortho", max(7.0, 2.2 * d + 3))
-            for ax in rng.sample(range(3), 1 if kind == "ortho-1" else 2):
+            for ax in rng.sample(range(3), int(kind[-1])):
                 cell[ax][ax] = -cell[ax][ax]
-            cf = np.array([[float(v) for v in row] for row in cell])
-            if min(fl.perp_widths(cf)) > D + 1.0:
-                return cf
-            continue
-        if kind in ("upper", "sparse"):
+        elif kind == "neg-mixed":
+            # negative diagonal entries mixed with off-diagonal ones: a triclinic / upper / sparse cell, 1-3 diagonal
+            # entries negated
+            sub = rng.choice(["tri+", "tri-", "upper", "sparse"])
+            if sub in ("upper", "sparse"):
+                cell = fl.make_cell(rng, "ortho", max(7.0, 2.2 * d + 3))
+                slots = [(0, 1), (0, 2), (1, 2)] if sub == "upper" else [(0, 1), (0, 2), (1, 2), (1, 0), (2, 0), (2, 1)]
+                for (i, j) in rng.sample(slots, rng.randint(1, 2)):
+                    cell[i][j] = rng.choice([1, -1]) * Fraction(rng.randint(2, 32), 8)
+            else:
+                cell = fl.make_cell(rng, sub, max(7.0, 2.2 * d + 3))
+            for ax in rng.sample(range(3), rng.randint(1, 3)):
+                cell[ax][ax] = -cell[ax][ax]
+        elif kind in ("upper", "sparse"):
             # tilt entries ABOVE the diagonal only ("upper"), or any non-empty sparse subset of the six off-diagonal
             # entries ("sparse", e.g. a = (10, 0, 4), b = (0, 10, 0), c = (0, 0, 10)): not orthorhombic, not in LAMMPS form
             cell = fl.make_cell(rng, "ortho", max(7.0, 2.2 * d + 3))
@@ -169,7 +180,7 @@ def _cell(rng, kind, d, atol, tight):
         else:
             cell = fl.make_cell(rng, kind, max(7.0, 2.2 * d + 3))
         cf = np.array([[float(v) for v in row] for row in cell])
-        if negative_diagonal(cf) or abs(np.linalg.det(cf)) < 1e-6:
+        if abs(np.linalg.det(cf)) < 1e-6:
             continue
         w = min(fl.perp_widths(cf))
         if tight:
@@ -332,7 +343,8 @@ def crossings(case):
 
 def random_case(rng, atol=0.05, pname=None, cell_kind=None, boundary=None, tight=None, perturb_div=8.0, ndecoy=None):
     pname = pname or rng.choice(list(fl.PATTERNS))
-    cell_kind = cell_kind or rng.choice(["ortho", "ortho", "tri+", "tri-", "rot", "upper", "sparse"])
+    cell_kind = cell_kind or rng.choice(["ortho", "ortho", "tri+", "tri-", "rot", "upper", "sparse",
+                                         "ortho-1", "ortho-2", "ortho-3", "neg-mixed"])
     tight = (rng.random() < 0.2) if tight is None else tight
     ncop = 1 if tight else rng.randint(1, 3)
     copies = []
@@ -361,10 +373,10 @@ def keys_of(idx_tuples):
     return sorted(tuple(sorted(int(i) for i in t)) for t in idx_tuples)
 
 
-def negdiag_case(rng, atol=0.05):
-    """a structure in a diagonal cell with one or two negative diagonal entries, with planted copies (known finding)"""
+def negdiag_case(rng, atol=0.05, kind=None):
+    """a structure in a cell with one, two or three negative diagonal entries (optionally mixed with off-diagonal entries), with planted copies"""
     pname = rng.choice(list(fl.PATTERNS))
-    kind = rng.choice(["ortho-1", "ortho-2"])
+    kind = kind or rng.choice(NEG_KINDS)
     copies = [(rng.choice(POSES), None if rng.random() < 0.5 else [rng.choice(FRACS) for _ in range(3)])
               for _ in range(rng.randint(1, 2))]
     return planted(rng, pname, kind, copies, atol=atol, ndecoy=rng.randint(0, 1))
